@@ -104,7 +104,10 @@ CYCLIC_ARGS = {"CYC"}
 SIZE_PROCS = {"make-vector", "make-string", "make-bytevector", "make-list", "read-string", "read-bytevector", "vector-fill!", "string-fill!", "list-tail", "list-ref",
               "make-rec-a", "string-copy", "vector-copy", "bytevector-copy", "*", "number->string", "square", "exact", "string->number", "exp", "gcd", "lcm"}
 HUGE_ARGS = {"4611686018427387903", "4611686018427387904", "18446744073709551616", "1048576", "+inf.0", "+nan.0", "1e308", "-inf.0",
-             "-4611686018427387904", "-4611686018427387905", "-123456789012345678901234567890"}
+             "-4611686018427387904", "-4611686018427387905", "-123456789012345678901234567890",
+             "(* 4294967295 4294967297)", "(- (* 4294967295 4294967297))", "(- (* 18446744073709551616 18446744073709551616) 1)", "(* (* 4294967295 4294967297) 18446744073709551616)",
+             # (as the fill of a 65536-element container the deep structure makes the printed result of the form tens of megabytes long)
+             "DEEP"}
 
 BENIGN = [
     "(define acc (list 1 2 3))", "(set! acc (cons (length acc) acc))", "(let loop ((i 0) (s 0)) (if (= i 100) s (loop (+ i 1) (+ s i))))",
